@@ -117,6 +117,7 @@ func runC01(c *sim.Ctx) *sim.Violation {
 		c.DistinctStr(presence(a))
 		lengthProbes(c, a)
 		c.Count(fmt.Sprintf("probe.remaining-length-%d-byte-form", gen.SizeClass(len(w.Buf)-before)))
+		boundaryProbes(c, w.Buf[before:])
 	}
 	mode := link.Mode{}
 	cfgName := "reliable-contiguous"
